@@ -155,7 +155,13 @@ func debugDump(repo, spec string) {
 			}
 		}
 	}
-	out := in.Run(fn, defaultArgs(fn), nil)
+	dargs := defaultArgs(fn)
+	for i, prm := range fn.Params {
+		if v, ok := in.PathBind[prm.Name()]; ok {
+			dargs[i] = v
+		}
+	}
+	out := in.Run(fn, dargs, nil)
 	fmt.Println("canReturn", out.CanReturn, "canPanic", out.CanPanic, "ret", out.Ret)
 	var keys []string
 	for k := range in.heap {
